@@ -216,6 +216,10 @@ func (w *c14World) apply(op c14Op) (skip bool, err error) {
 			delete(w.jobs, op.Job)
 			return false, w.jw.Sched.DeleteJob(id)
 		}
+	case "lookupns":
+		// a reader asks for an entity by full URI in a namespace nobody has mentioned yet
+		_, err := w.jw.W.Store.GetEntity(fmt.Sprintf("http://c14-lookup-%d.%s/x", op.N, h.Tag), nil, true)
+		return false, err
 	case "reg":
 		pub, _ := os.ReadFile(filepath.Join(c16KeyDir(), "client_key.pub"))
 		w.core.RegisterClient(&security.ClientInfo{ClientID: op.C, PublicKey: pub})
@@ -629,6 +633,7 @@ func c14Alphabet(wide bool) []c14Op {
 		{K: "create", DS: "P", N: 1},
 		{K: "rename", DS: "A", To: "A2"},
 		{K: "delete", DS: "B"},
+		{K: "lookupns", N: 1},
 		{K: "addjob", Job: "j1"},
 		{K: "pause", Job: "j1"},
 		{K: "run", Job: "j1"},
@@ -698,7 +703,7 @@ func init() {
 		}
 	})
 	engine.RegisterCheck("C14", func(r *engine.Run) {
-		r.Rule = "SEQ: every history up to the stated depth over the alphabet {restart, 3 data writes incl. a two-dataset transaction, create plain / with public namespaces, rename, delete, add job, pause, run, register client, set ACL, delete ACL, add login provider} (wide alphabet adds proxy dataset, re-create, paused and fullsync jobs, unpause, reset, delete job, un-register, second client/ACL, delete provider) on a hub of its own (store, dataset manager, runner, scheduler, security core, token providers); after every history (a) data read APIs vs the reference model that ignores restarts, (b) full observation through every read API before vs after a stop/start, (c) raw-key invariants after the restart and after a probe write; states deduplicated by canonical raw scan + non-entity observation"
+		r.Rule = "SEQ: every history up to the stated depth over the alphabet {restart, 3 data writes incl. a two-dataset transaction, a lookup by full URI in an unmentioned namespace, create plain / with public namespaces, rename, delete, add job, pause, run, register client, set ACL, delete ACL, add login provider} (wide alphabet adds proxy dataset, re-create, paused and fullsync jobs, unpause, reset, delete job, un-register, second client/ACL, delete provider) on a hub of its own (store, dataset manager, runner, scheduler, security core, token providers); after every history (a) data read APIs vs the reference model that ignores restarts, (b) full observation through every read API before vs after a stop/start, (c) raw-key invariants after the restart and after a probe write; states deduplicated by canonical raw scan + non-entity observation"
 		r.Assumptions = []string{"quiescent points only: no full sync in progress, no running job at the moment of the restart", "Restart = Runner.Stop, Store.Close, then NewStore, NewDsManager, NewRunner, NewScheduler, NewServiceCore, NewProviderManager/NewTokenProviders on the same directories", "node key pre-generated (2048 bit)"}
 		if err := c16PrepareKeys(); err != nil {
 			r.Cap("cannot prepare keys: " + err.Error())
